@@ -60,6 +60,9 @@ func genC11(r *vh.Rand) c11Spec {
 		case x < 3 || nsess == 0:
 			op.Kind, op.Sess = "init", -2
 			nsess++
+			if r.Chance(1, 4) {
+				op.Ms = []int{T / 2, T + 50, 2*T + 10}[r.Intn(3)] // the initialize request itself is slow (middleware)
+			}
 		case x < 4:
 			op.Kind, op.Sess = "init-bad", -2
 			nsess++ // occupies an index: its id is stale from birth
@@ -92,7 +95,7 @@ func TestVerifC11(t *testing.T) {
 		Property: "C11",
 		Cases:    vh.Pick(2500, 80000),
 		Rule: "each case: 4..14 operations over {initialize, failed initialize, POST call, slow POST (T/2, T+50ms, 2T+10ms; foreground or background), notification, GET, DELETE, server-side Close, non-initialize POST without id, clock advance by 1ms|T/2|T-1ms|T+1ms|3T} " +
-			"with session ids valid/unknown/stale and users none/alice/bob (bearer middleware), idle timeout T in {1 s, 60 s}; 1/8 of the cases on a stateless endpoint. non-trivial: >=1 session terminated (DELETE, timeout or server Close) and afterwards addressed again, or >=1 foreign-user request. " +
+			"(1/4 of the initialize requests are themselves slow: T/2, T+50ms, 2T+10ms) with session ids valid/unknown/stale and users none/alice/bob (bearer middleware), idle timeout T in {1 s, 60 s}; 1/8 of the cases on a stateless endpoint. non-trivial: >=1 session terminated (DELETE, timeout or server Close) and afterwards addressed again, or >=1 foreign-user request. " +
 			"distinct = distinct operation sequences (kind, target class, user relation, delay)",
 		MinNontrivial: 100,
 		Assumptions:   []string{"the idle deadline is decided at +-1 ms, not at the exact instant", "a 409 on a resumed/duplicate standalone GET is not part of this property (GETs are cut before the next operation)"},
@@ -130,6 +133,18 @@ func runC11(c *vh.Case, spec c11Spec) {
 		handlerRuns.Store(a.Nonce, true)
 		time.Sleep(ms(a.Ms))
 		return &mcp.CallToolResult{Content: []mcp.Content{&mcp.TextContent{Text: "ok"}}}, nil
+	})
+	// a slow initialize: the session-creating POST is in progress for longer than the idle timeout
+	server.AddReceivingMiddleware(func(next mcp.MethodHandler) mcp.MethodHandler {
+		return func(ctx context.Context, method string, req mcp.Request) (mcp.Result, error) {
+			if ip, ok := req.GetParams().(*mcp.InitializeParams); ok && method == "initialize" && ip != nil && ip.ClientInfo != nil {
+				var d int
+				if n, _ := fmt.Sscanf(ip.ClientInfo.Name, "slow-%d-", &d); n == 1 && d > 0 {
+					time.Sleep(ms(d))
+				}
+			}
+			return next(ctx, method, req)
+		}
 	})
 	var lateWG sync.WaitGroup
 	server.AddTool(&mcp.Tool{Name: "late", InputSchema: json.RawMessage(`{"type":"object"}`)}, func(ctx context.Context, req *mcp.CallToolRequest) (*mcp.CallToolResult, error) {
@@ -274,6 +289,9 @@ func runC11(c *vh.Case, spec c11Spec) {
 		switch op.Kind {
 		case "init", "init-bad":
 			body := fmt.Sprintf(`{"jsonrpc":"2.0","id":1,"method":"initialize","params":{"protocolVersion":"2025-06-18","capabilities":{},"clientInfo":{"name":"c%d","version":"1"}}}`, i)
+			if op.Kind == "init" && op.Ms > 0 {
+				body = fmt.Sprintf(`{"jsonrpc":"2.0","id":1,"method":"initialize","params":{"protocolVersion":"2025-06-18","capabilities":{},"clientInfo":{"name":"slow-%d-c%d","version":"1"}}}`, op.Ms, i)
+			}
 			if op.Kind == "init-bad" {
 				body = `{"jsonrpc":"2.0","id":1,"method":"initialize","params":null}`
 			}
@@ -301,8 +319,16 @@ func runC11(c *vh.Case, spec c11Spec) {
 			models = append(models, nm)
 			mmu.Unlock()
 			synctestWait()
-			if got := len(serverSessions()); got != before+b2i(nm.alive) && !anyNear(models, nearDeadline) {
-				bad("session-count", "op %d %s: server lists %d sessions, expected %d", i, op.Kind, got, before+b2i(nm.alive))
+			want := before + b2i(nm.alive)
+			if op.Ms > 0 {
+				// time passed while the request was in progress: other sessions may have idled out meanwhile
+				mmu.Lock()
+				settle()
+				want = liveCount()
+				mmu.Unlock()
+			}
+			if got := len(serverSessions()); got != want && !anyNear(models, nearDeadline) {
+				bad("session-count", "op %d %s: server lists %d sessions, expected %d", i, op.Kind, got, want)
 			}
 		case "post-nosid":
 			before := len(serverSessions())
